@@ -125,6 +125,8 @@ class FakeTransport(asyncio.BaseTransport):
         self.lost = False
         self.protocol = None
         self.close_raises_after_loss = False
+        self.eof_first = False
+        self.eof_delay = 0.3
         self.close_delay = 0.0  # > 0: connection_lost() is delivered that long after close() (TLS shutdown, a bridge, a slow serial driver)
 
     def get_extra_info(self, name, default=None):
@@ -157,6 +159,18 @@ class FakeTransport(asyncio.BaseTransport):
     def lose(self):
         """The peer went away."""
         if self.closed or self.lost:
+            return
+        if self.eof_first and self.protocol is not None:
+            # an orderly shutdown by the peer: the transport first reports end-of-file, then takes a moment to close itself (TLS close,
+            # lingering close) and only then delivers connection_lost(): until then the connection has not ended
+            self.eof_first = False
+            eof = getattr(self.protocol, "eof_received", None)
+            if eof is not None:
+                try:
+                    eof()
+                except Exception:
+                    pass
+            self.log.loop.call_later(self.eof_delay, self.lose)
             return
         self.lost = True
         self.log.add("lost", self.index)
@@ -206,6 +220,7 @@ class FakeFactory:
         # both are functions of the scenario (not of the run), so that the same word behaves the same for every injected close()
         self.endpoint = "tcp4"
         self.traffic = False
+        self.eof_first = False
         self.deferred_made = False  # connection_made() scheduled with call_soon, as serial_asyncio does, instead of called before the factory returns
         self.close_delay = 0.0
 
@@ -232,6 +247,7 @@ class FakeFactory:
                 transport = FakeTransport(self.log, i, self.endpoint)
                 transport.close_raises_after_loss = self.close_raises_after_loss
                 transport.close_delay = self.close_delay
+                transport.eof_first = self.eof_first
                 protocol = SmartMeterMessageProtocol(asyncio.Queue(), [ModeDReader()])
                 transport.protocol = protocol
                 if self.deferred_made:
@@ -302,6 +318,11 @@ def run_scenario(outcomes, lifetimes, horizon: float, close_at=None, config=None
     factory.endpoint = transports.KINDS[1:][key % (len(transports.KINDS) - 1)]
     factory.traffic = (key >> 8) % 2 == 1
     factory.deferred_made = (key >> 9) % 2 == 1
+    factory.eof_first = (key >> 10) % 3 == 0
+    if (key >> 12) % 2 == 1 and hasattr(asyncio, "eager_task_factory"):
+        # Python 3.12's eager task factory (what Home Assistant runs): a coroutine that never suspends finishes inside create_task()
+        loop.set_task_factory(asyncio.eager_task_factory)
+        STATS["scenarios_on_a_loop_with_the_eager_task_factory"] = STATS.get("scenarios_on_a_loop_with_the_eager_task_factory", 0) + 1
     factory.close_delay = close_delay
     shim = None
     saved = mc.datetime
